@@ -127,7 +127,7 @@ def parseUint (ds : List Nat) (base bits : Nat) : Option Nat :=
     | none => none
 
 /-- the `number` closure: parses `s[i:i+size]`, returns (bytes written by `sb.WriteRune(rune(n))`,
-the index of the last digit); `none` = panic (slice out of range or ParseUint error) -/
+the index of the last digit); `none` = the error return (`i+size > len(s)`, or ParseUint fails) -/
 def number (s : List Nat) (i size base bits : Nat) : Option (List Nat × Nat) :=
   if i + size ≤ s.length then
     match parseUint ((s.drop i).take size) base bits with
@@ -151,7 +151,8 @@ def escAct (e : Nat) : EscAct :=
   | _ => .bad
 
 /-- the `for i := 0; i < len(s); i++` loop over the bytes of `s`; `acc` is the strings.Builder;
-`none` = panic (index out of range after a trailing backslash, bad digits, unrecognised escape) -/
+`none` = the error return (a trailing backslash: `i == len(s)`; bad digits; unrecognised escape) — a compile
+error since the repair, a panic before it -/
 def loop (s indent : List Nat) : Nat → Nat → List Nat → Option (List Nat)
   | 0, _, _ => none
   | fuel + 1, i, acc =>
@@ -159,7 +160,7 @@ def loop (s indent : List Nat) : Nat → Nat → List Nat → Option (List Nat)
     | none => some acc                                   -- i >= len(s)
     | some c =>
       if c = 92 then
-        match s[i + 1]? with                             -- i++ ; switch s[i]
+        match s[i + 1]? with                             -- i++ ; if i == len(s) {error} ; switch s[i]
         | none => none
         | some e =>
           match escAct e with
@@ -173,8 +174,7 @@ def loop (s indent : List Nat) : Nat → Nat → List Nat → Option (List Nat)
       else loop s indent fuel (i + 1) (acc ++ [c])
 
 /-- `parseArraiStringFragment(s, validEscapes, indent)` for the quote-delimited forms (the back-quote
-form does not go through the loop).  `validEscapes` does not influence the result: the default case
-tests the backslash itself against it and then panics either way. -/
+form does not go through the loop; `validEscapes` is only consulted for that). -/
 def parseFragment (s : List Nat) (indent : List Nat := []) : Option (List Nat) :=
   loop s indent (s.length + 1) 0 []
 
